@@ -6,6 +6,23 @@ from ...arch.arch_info import Endianness
 from . import astnodes as ast
 
 
+def const_divide(a, b):
+    """Divide constants. Integers divide like the '/' operator does at
+    run time: the quotient is an integer, truncated toward zero."""
+    if isinstance(a, int) and isinstance(b, int):
+        quotient = abs(a) // abs(b)
+        return quotient if (a < 0) == (b < 0) else -quotient
+    return a / b
+
+
+def const_remainder(a, b):
+    """Remainder of constants. For integers the result takes the sign of
+    the dividend, like the '%' operator at run time."""
+    if isinstance(a, int) and isinstance(b, int):
+        return a - b * const_divide(a, b)
+    return a % b
+
+
 class Context:
     """A context is the space where all modules live in.
 
@@ -111,9 +128,9 @@ class Context:
             ops = {
                 "+": operator.add,
                 "-": operator.sub,
-                "/": operator.truediv,
+                "/": const_divide,
                 "*": operator.mul,
-                "%": operator.mod,
+                "%": const_remainder,
             }
             return ops[expr.op](a, b)
         elif isinstance(expr, ast.TypeCast):
